@@ -107,3 +107,34 @@ finding("C07-hcircle-default-colour-statement", ["C07"],
         "HCIRCLE with an omitted colour and a convertible function in a later operand printed the hoisted call inside the argument list",
         {"C07": [SRC("10 HCIRCLE(1,2),3,,INT(A)"), SRC("10 HCIRCLE(1,2),3,,BUTTON(0),INT(C),1")]},
         status="fixed", commit="346ca10")
+
+def C10CASE(source, vars_, **opts):
+    o = {"default_str_storage": 32, "initialize_vars": False, "string_configs": {}}
+    o.update(opts)
+    return {"source": source, "vars": vars_, "options": o}
+def VAR(name, kind, pos, dims=None, dimmed=False):
+    return {"name": name, "kind": kind, "pos": pos, "dims": dims, "dimmed": dimmed}
+
+finding("C10-implicit-multidimensional-arrays", ["C10", "C03"],
+        "an array that is never DIMensioned but used with 2 or 3 subscripts is declared with one dimension: '10 A(1,2)=3' gives 'DIM arr_A(11)'",
+        {"C10": [C10CASE("10 AA(1,2)=3", [VAR("AA", "arr", "top", [11, 11])])],
+         "C03": [P([10, [LET(["arr", "Q", [N(1), N(2)]], N(3))]], [20, [PR(["arr", "Q", [N(1), N(2)]])]])]},
+        switch="implicit_arrays_1d", pinned_by="tests/coco_tests/b09/test_b09.py::TestB09::test_parse_array_ref")
+finding("C10-implicit-string-arrays-unsized", ["C10", "C03"],
+        "an implicitly declared string array never gets a size: with default_str_storage=100, '10 A$(1)=\"X\"' gives 'DIM arr_A$(11)' (32-byte elements); longer strings are truncated",
+        {"C10": [C10CASE('10 AA$(1)="X"', [VAR("AA", "sarr", "top", [11])], default_str_storage=100)],
+         "C03": [dict(P([10, [LET(["sarr", "G", [N(1)]], ["str", "0123456789012345678901234567890123456789"])]], [20, [PR(["sarr", "G", [N(1)]])]]),
+                      options={"default_str_storage": 80, "initialize_vars": True}, str_limit=80)]},
+        switch="implicit_string_arrays_default_storage_only")
+finding("C10-read-input-varptr-only-variables", ["C10", "C03"],
+        "variables and array elements that occur only as READ / INPUT targets or only under VARPTR are never visited: strings get no size, arrays no DIM, and they are not pre-initialised",
+        {"C10": [C10CASE("10 READ AA$\n20 DATA ITEM", [VAR("AA", "str", "read")], default_str_storage=40),
+                 C10CASE("10 INPUT BQ(3)", [VAR("BQ", "arr", "input", [11])]),
+                 C10CASE("10 ZN=VARPTR(CX$)", [VAR("CX", "str", "varptr")], default_str_storage=40)],
+         "C03": [P([10, [["read", [["arr", "Q", [N(3)]]]]]], [20, [["data", [["n", "7", 7]]]]], [30, [PR(["arr", "Q", [N(3)]])]])]},
+        switch="rw_targets_also_top_level")
+finding("C10-joystick-state-declared-twice", ["C10", "C14"],
+        "the JOYSTK prologue declares joy0y twice ('dim joy0x, joy0y, joy1x, joy0y: integer') and never declares joy1y; ecb_joystk is called with 2 arguments although it declares 6 parameters",
+        {"C10": [C10CASE("10 ZN=JOYSTK(0)", [])],
+         "C14": [SRC("10 A=JOYSTK(0)")]},
+        switch="no_joystk", pinned_by="tests/coco_tests/b09/test_b09.py::TestB09::test_joystk")
